@@ -4,7 +4,9 @@
 // conditions are string values. encoding/json replaces every byte that is not part of a valid UTF-8 sequence by U+FFFD, so
 // Unmarshal(Marshal(s)) = sanitize(s) (model: Persist.sanitize; unit comparison below). tag.Parse keeps the bytes of an
 // unquoted value as they are, the pipe service takes any Go string as a name: a stored key that is not valid UTF-8 changes
-// across ANY restart, and two keys with the same image collapse into one (findings F-C07-901 tag index, F-C07-902 pipes).
+// across ANY restart, and two keys with the same image collapse into one (findings F-C07-901 tag index, F-C07-902 pipes;
+// repaired by a7918dd / 3cf6638: such a partition / pipe is refused when it would be created — the witnesses must now be
+// refused at write / create time, which is compared with the model's guards, and everything that IS accepted must survive).
 package main
 
 import (
@@ -82,14 +84,23 @@ func runUtf8(c scase, sec string, sect *vh.Section) {
 			continue
 		}
 		line := string(set.Line())
+		_, known := lines[line]
+		en := s.model("enabled.part "+vh.HxS(line), false)
 		var wr api.WriteResult
 		ts := int64(10 + i)
 		err = s.srv.Client.Write(context.Background(), raw, "", []*api.LogEvent{{Timestamp: ts, Message: fmt.Sprintf("m%d", i)}}, &wr)
 		if err == nil {
 			err = wr.Err
 		}
+		// the guard of partition creation (repair of F-C07-901: a tag line that encoding/json would change is refused): model vs code
+		if !known && (en == "1") != (err == nil) {
+			res.Mismatch(vh.Mismatch{Section: sec, Function: "getOrCreateJournal accepts the tag line (model: enabled newPartition)", Input: vh.HxS(line), Impl: fmt.Sprint(err == nil), Model: en})
+		}
 		if err != nil {
-			res.Dist(sect, "utf8:write-refused") // (what a repair of F-C07-901 would do for invalid tags)
+			res.Dist(sect, "utf8:write-refused")
+			if utf8.ValidString(line) {
+				s.specFail("write-refused", "a write with valid UTF-8 tags is refused", err.Error(), "acknowledged", en, en == "0", "")
+			}
 			continue
 		}
 		if _, ok := s.implParts()[line]; !ok {
@@ -111,8 +122,16 @@ func runUtf8(c scase, sec string, sect *vh.Section) {
 	var names []string
 	for _, hx := range c.Utf8.PipesHx {
 		raw := string(vh.UnHx(hx))
-		if _, err := s.srv.Pipes.CreatePipe(pipe.Pipe{Name: raw, TagsCond: "zz=1"}); err != nil {
+		en := s.model(fmt.Sprintf("enabled.mkpipe %s %s -", vh.HxS(raw), vh.HxS("zz=1")), false)
+		_, cerr := s.srv.Pipes.CreatePipe(pipe.Pipe{Name: raw, TagsCond: "zz=1"})
+		if (en == "1") != (cerr == nil) {
+			res.Mismatch(vh.Mismatch{Section: sec, Function: "CreatePipe accepts the name (model: enabled createPipe)", Input: vh.HxS(raw), Impl: fmt.Sprint(cerr == nil), Model: en})
+		}
+		if cerr != nil {
 			res.Dist(sect, "utf8:create-pipe-refused")
+			if utf8.ValidString(raw) {
+				s.specFail("create-pipe-refused", "CREATE PIPE with a valid UTF-8 name is refused", cerr.Error(), "created", en, en == "0", "")
+			}
 			continue
 		}
 		d, err := s.srv.Pipes.GetPipe(raw)
